@@ -57,7 +57,7 @@ CLAIMED = {
   "also decided: the Unicode class name handed to rangeTable is made of exactly the runes between the braces of \\p{...} (ghost-state contract on CharClassMatcher.parse), each code block is rendered once. 'compiles together with the user's package and passes go vet for every grammar' needs Go's static semantics of user code as a specification: not decided. The grammar-dependent part of the emission (var g literal, on*/callon* glue) is printf text whose denotation is trusted (the attribute lines the runtime relies on are proved to carry the node's own attributes); F7c (label clash after inlining) is not decided."),
  "C10": ("proof", "§7 C10",
   "Layer 1 of the design: for every function of the runtime, the optimized and the standard instantiation (and every left-recursion / state / basic-latin combination) are verified against the SAME contract set -- the PEG judgement and value shapes (C01), what code blocks observe (C02), state-store rollback (C05), seed growing (C08), error list contents (C11), failure record (C12), throw/recover (C14), budget (C16), invalid UTF-8 (C17) -- so both are pinned to one functional specification; the variant-specific dispatch of parseRuleWrap is proved to send exactly the leader to the growth loop, members of a cycle past every rule-level memo, and plain rules to parseRule; template arms that exist in only one of the two (Debug/Memoize/Statistics) are proved to touch only depth, the memo and the statistics maps.",
-  "relational layer 2 (same value for the same oracle answers of code blocks) is a meta-argument over the shared contracts, not machine-checked; flag wiring in main.go is not under contract"),
+  "relational layer 2 (same value for the same oracle answers of code blocks) is a meta-argument over the shared contracts, not machine-checked; the flag wiring (main() builds builder.Optimize from -optimize-parser, etc.) and the option closures (builder.Optimize sets b.optimize, ...) are under contract, the application of an option value is an assumed generic contract"),
 }
 
 NOT_APPLICABLE = {
